@@ -1,6 +1,6 @@
 #!/usr/bin/env python3
 import sys
-sys.path.insert(0,'/verif/tools')
+sys.path.insert(0, __import__('os').path.dirname(__import__('os').path.abspath(__file__)))
 from cmpobs import split_ops, split_histories
 ops=split_ops(sys.argv[1]); mod=split_histories(sys.argv[2],keep_trig=True)
 i=int(sys.argv[3]); lo=int(sys.argv[4]) if len(sys.argv)>4 else 0
